@@ -154,6 +154,7 @@ var Mutants = map[string][]Mutant{
 		{"Join passes radians to ArcTo", "path.go", `p\.ArcTo\(d\[1\], d\[2\], d\[3\]\*180\.0/math\.Pi, large, sweep, d\[5\], d\[6\]\)`, `p.ArcTo(d[1], d[2], d[3], large, sweep, d[5], d[6])`, "E8.units"},
 	},
 	"C08": {
+		{"quad bounds: the y extreme only when there is no x extreme", "path.go", `(?s)(\t\t\tif tdenom := \(start\.X - 2\*cp\.X \+ end\.X\); !Equal\(tdenom, 0\.0\) \{\n(?:\t\t\t\t[^\n]*\n)+?\t\t\t\})\n\n(\t\t\tymin = math\.Min\(ymin, end\.Y\)\n\t\t\tymax = math\.Max\(ymax, end\.Y\)\n)\t\t\tif (tdenom := \(start\.Y - 2\*cp\.Y \+ end\.Y\))`, "${2}${1} else if ${3}", "E3.axes-exclusive"},
 		{"angleBetween wraps at most once instead of normalising", "util.go", `(?s)\ttheta = angleNorm\(theta - lower \+ Epsilon\)\n\tupper = angleNorm\(upper - lower \+ 2\.0\*Epsilon\)\n\treturn theta <= upper\n`, "\ttheta -= lower\n\tif theta < -Epsilon {\n\t\ttheta += 2.0 * math.Pi\n\t} else if 2.0*math.Pi-Epsilon <= theta {\n\t\ttheta -= 2.0 * math.Pi\n\t}\n\treturn Interval(theta, 0.0, upper-lower)\n", "E11.angle-range-normalised"},
 		{"arc extremes folded from a table of points with both coordinates", "path.go", `(?s)\t\t\tif angleBetween\(thetaLeft, theta0, theta1\) \{\n\t\t\t\txmin = math\.Min\(xmin, cx-dx\)\n\t\t\t\}\n`, "\t\t\tif angleBetween(thetaLeft, theta0, theta1) {\n\t\t\t\txmin = math.Min(xmin, cx-dx)\n\t\t\t\tymin, ymax = math.Min(ymin, cy), math.Max(ymax, cy)\n\t\t\t}\n", "E3.arc-extent"},
 		{"cubic bounds solve the derivative only when the end tangents disagree", "path.go", `(c := -start\.X \+ cp1\.X\n\t\t\t)t1, t2 := solveQuadraticFormula\(a, b, c\)`, "${1}t1, t2 := math.NaN(), math.NaN()\n\t\t\tif c*(end.X-cp2.X) <= 0.0 {\n\t\t\t\tt1, t2 = solveQuadraticFormula(a, b, c)\n\t\t\t}", "E3.derivative-solved"},
@@ -186,6 +187,7 @@ var Mutants = map[string][]Mutant{
 		{"quad case reads offset 5", "path.go", `\t\tcase QuadToCmd:\n\t\t\tcp := Point\{p\.d\[i\+1\], p\.d\[i\+2\]\}\n\t\t\tend = Point\{p\.d\[i\+3\], p\.d\[i\+4\]\}\n\t\t\txmin = math\.Min\(xmin, math\.Min\(cp\.X, end\.X\)\)`, "\t\tcase QuadToCmd:\n\t\t\tcp := Point{p.d[i+1], p.d[i+2]}\n\t\t\tend = Point{p.d[i+5], p.d[i+6]}\n\t\t\txmin = math.Min(xmin, math.Min(cp.X, end.X))", "E2.layout"},
 	},
 	"C10": {
+		{"smooth cubic after a relative smooth cubic is not reflected", "path.go", `prevCmd == 'C' \|\| prevCmd == 'c' \|\| prevCmd == 'S' \|\| prevCmd == 's'`, "prevCmd == 'C' || prevCmd == 'c' || prevCmd == 'S'", "E11.svg-smooth"},
 		{"position of the rest not clamped after the join (reverts fix ff037ad)", "path.go", `(?s)(\t\t\tp = p\.Join\(r\) // join the rest of the base path\n)\t\t\tif len\(p\.d\) < i \{\n[^\n]*\n\t\t\t\ti = len\(p\.d\)\n\t\t\t\}\n`, "$1", "E11.cursor-revalidated-after-join"},
 		{"Reverse probes the leading command of the previous record", "path.go", `if closed && \(i == 0 \|\| p\.d\[i-1\] == MoveToCmd\) \{`, "if closed && (i == 0 || p.d[i-cmdLen(MoveToCmd)] == MoveToCmd) {", "E2.layout"},
 		{"CubeTo tests the first control point in the clause of the second", "path.go", `(angleEqual\(end\.Sub\(start\)\.AngleBetween\(cp2\.Sub\(start\)\), 0\.0\) && angleEqual\(end\.Sub\(start\)\.AngleBetween\(end\.Sub\()cp2(\)\), 0\.0\)\))`, "${1}cp1${2}", "E11.control-point-clauses-symmetric"},
@@ -203,6 +205,7 @@ var Mutants = map[string][]Mutant{
 		{"Close retags one end only", "path.go", `\t\tp\.d\[len\(p\.d\)-1\] = CloseCmd\n\t\tp\.d\[len\(p\.d\)-cmdLen\(LineToCmd\)\] = CloseCmd\n`, "\t\tp.d[len(p.d)-1] = CloseCmd\n", "E2.retag"},
 	},
 	"C11": {
+		{"smooth cubic after a relative smooth cubic is not reflected", "path.go", `prevCmd == 'C' \|\| prevCmd == 'c' \|\| prevCmd == 'S' \|\| prevCmd == 's'`, "prevCmd == 'C' || prevCmd == 'c' || prevCmd == 'S'", "E11.svg-smooth"},
 		{"parser forgets the position of an empty closed sub-path (reverts fix db9f29f)", "path.go", `\t\t\temptyClosed = !p\.Pos\(\)\.Equals\(p1\)\n`, "", "E11.empty-close-keeps-position"},
 		{"quoted url() reference sliced without its own length test (reverts fix 379229e)", "svg.go", `\} else if 7 < len\(val\) \{\n[^\n]*\n(\t\t\t\treturn val\[6 : len\(val\)-2\])`, "} else {\n$1", "E4.slice-length-guarded"},
 		{"decimal formatter tests the signed value against 1", "util.go", `if a := math\.Abs\(float64\(f\)\); 1\.0 <= a && !math\.IsInf\(a, 0\) \{`, "if a := float64(f); 1.0 <= a && !math.IsInf(a, 1) {", "E11.magnitude-test-on-abs"},
@@ -223,6 +226,7 @@ var Mutants = map[string][]Mutant{
 		{"number table larger than the buffer", "path.go", `\t\t'A': 7,\n`, "\t\t'A': 8,\n", "E4.table-bound"},
 	},
 	"C12": {
+		{"opacity names remembered for the whole document", "renderers/pdf/writer.go", `(func \(w \*pdfWriter\) NewPage\((?:.*\n)*?\t\tgraphicsStates: )map\[float64\]pdfName\{\},`, "var sharedGS = map[float64]pdfName{}\n\n${1}sharedGS,", "E5.page-memo"},
 		{"PostScript outline fallback painted with the path's fill operator", "renderers/ps/ps.go", `(?s)(\tif style\.HasFill\(\) \{\n\t\tr\.setPaint\(style\.Fill\)\n)(.*)(\t\t\tr\.setPaint\(style\.Stroke\)\n\t\t\tr\.w\.Write\()\[\]byte\(" fill"\)\)`, "\tfillOp := []byte(\" fill\")\n\tif style.FillRule == canvas.EvenOdd {\n\t\tfillOp = []byte(\" eofill\")\n\t}\n${1}${2}${3}fillOp)", "E6.outline-nonzero"},
 		{"stroke state set before the fill operator when the alphas differ", "renderers/pdf/pdf.go", `(?s)(\t\t\t\} else \{\n\t\t\t\tr\.w\.SetFill\(style\.Fill\)\n)(\t\t\t\tr\.w\.Write\(\[\]byte\(" "\)\)\n\t\t\t\tr\.w\.Write\(\[\]byte\(data\)\)\n\t\t\t\tr\.w\.Write\(\[\]byte\(" f"\)\)\n\t\t\t\tif style\.FillRule == canvas\.EvenOdd \{\n\t\t\t\t\tr\.w\.Write\(\[\]byte\("\*"\)\)\n\t\t\t\t\}\n\n)(\t\t\t\tr\.w\.SetStroke\(style\.Stroke\)\n)`, "$1$3$2", "E5.paint-follows-its-setter"},
 		{"SetFont forgets the direction", "renderers/pdf/writer.go", `\t\tw\.font = font\n\t\tw\.fontSize = size\n\t\tw\.fontDirection = direction\n`, "\t\tw.font, w.fontSize = font, size\n", "E6.memo-stores-compared"},
@@ -348,6 +352,7 @@ var Mutants = map[string][]Mutant{
 		{"Text.Heights uses the first line's top", "text.go", `\t_, ascent, _, _ := firstLine\.Heights\(t\.WritingMode\)`, "\tascent, _, _, _ := firstLine.Heights(t.WritingMode)", "E3.line-heights"},
 	},
 	"C17": {
+		{"InsertBefore links the old head one way", "text/linebreak.go", `(\t\tat\.prev\.next = b\n)\t\}\n\tat\.prev = b\n`, "${1}\t\tat.prev = b\n\t}\n", "E4.list-links"},
 		{"ratio of a fitness class recorded only for the overall cheapest candidate", "text/linebreak.go", `(?s)\t\t\t\t\tD\[c\] = demerits\n\t\t\t\t\tA\[c\] = active\n\t\t\t\t\tR\[c\] = ratio\n\t\t\t\t\tif demerits < Dmin \{\n\t\t\t\t\t\tDmin = demerits\n`, "\t\t\t\t\tD[c], A[c] = demerits, active\n\t\t\t\t\tif demerits < Dmin {\n\t\t\t\t\t\tDmin, R[c] = demerits, ratio\n", "E4.class-records-together"},
 		{"next stretch limit recorded in the else of the deactivation test", "text/linebreak.go", `(?s)(\t\t\t\tlb\.inactiveNodes\.Push\(active\)\n\t\t\t\})(\n\t\t\tif -1\.0 <= ratio && ratio <= tolerance \{.*?\n\t\t\t)\} else if tolerance < ratio \{\n[^\n]*\n\t\t\t\tlb\.nextTolerance = math\.Min\(lb\.nextTolerance, ratio\)\n\t\t\t\}`, "$1 else if tolerance < ratio {\n\t\t\t\tlb.nextTolerance = math.Min(lb.nextTolerance, ratio)\n\t\t\t}$2}", "E4.next-tolerance-recorded"},
 		{"penalty width added to the running total during mainLoop", "text/linebreak.go", `(func \(lb \*linebreaker\) mainLoop\(b int, tolerance float64\) \{\n\titem := lb\.items\[b\]\n\tactive := lb\.activeNodes\.head\n)`, "${1}\tif item.Type == PenaltyType {\n\t\tdefer func(W float64) { lb.W = W }(lb.W)\n\t\tlb.W += item.Width\n\t}\n", "E4.running-totals-fixed"},
@@ -363,6 +368,8 @@ var Mutants = map[string][]Mutant{
 		{"Linebreak looks at items[b+1] unguarded", "text/linebreak.go", `\(len\(lb\.items\) <= b\+1 \|\| lb\.items\[b\+1\]\.Type != PenaltyType\)`, `lb.items[b+1].Type != PenaltyType`, "E4.neighbour-guard"},
 	},
 	"C18": {
+		{"kerning adjustment truncated toward zero", "renderers/pdf/writer.go", `int\(math\.Round\(f \* float64\(kern\)\)\)|int\(math\.Round\(f\*float64\(kern\)\)\)`, "int(f*float64(kern) + 0.5)", "E5.signed-rounding"},
+		{"font names remembered per document, numbered per page", "renderers/pdf/writer.go", `(?s)(func \(w \*pdfPageWriter\) SetFont\(.*?)\t\t\} else \{\n\t\t\tfor name, fontRef := range w\.resources\["Font"\]\.\(pdfDict\) \{.*?\n\t\t\}\n\n\t\tname := (pdfName\(fmt\.Sprintf\("F%d", len\(w\.resources\["Font"\]\.\(pdfDict\)\)\)\))\n`, "var fontNames = map[pdfRef]pdfName{}\n\n${1}\t\t}\n\n\t\tname, ok := fontNames[ref]\n\t\tif !ok {\n\t\t\tname = ${2}\n\t\t\tfontNames[ref] = name\n\t\t}\n", "E5.name-memo-scope"},
 		{"control bytes of glyph codes written as unpadded octal escapes", "renderers/pdf/writer.go", `(?s)(glyphID := subset\.Get\(glyph\.ID\).*?\t\t\t\t\t\tw\.WriteByte\('\\\\'\)\n\t\t\t\t\t\tw\.WriteByte\(c\)\n)(\t\t\t\t\t\} else \{)`, "${1}\t\t\t\t\t} else if 0 < c && c < ' ' {\n\t\t\t\t\t\tfmt.Fprintf(w, \"\\\\%o\", c)\n${2}", "E5.glyph-string-escapes"},
 		{"glyph offsets added to the pen", "font.go", `(?s)\t\terr := face\.Font\.GlyphPath\(p, glyph\.ID, ppem, f\*float64\(x\+glyph\.XOffset\), f\*float64\(y\+glyph\.YOffset\), f, font\.NoHinting\)\n`, "\t\tx, y = x+glyph.XOffset, y+glyph.YOffset\n\t\terr := face.Font.GlyphPath(p, glyph.ID, ppem, f*float64(x), f*float64(y), f, font.NoHinting)\n", "E11.pen-advances-only"},
 		{"SetFont forgets the direction", "renderers/pdf/writer.go", `\t\tw\.font = font\n\t\tw\.fontSize = size\n\t\tw\.fontDirection = direction\n`, "\t\tw.font, w.fontSize = font, size\n", "E6.memo-stores-compared"},
@@ -379,6 +386,7 @@ var Mutants = map[string][]Mutant{
 		{"vertical fonts written as horizontal", "renderers/pdf/writer.go", `w\.writeFonts\(w\.fontsV, true\)`, `w.writeFonts(w.fontsV, false)`, "E5.fontmaps"},
 	},
 	"C19": {
+		{"rgba premultiplied before the alpha is parsed", "svg.go", `(\t\tcol\.A = svg\.parseAlphaComponent\(comps\[3\]\)\n)(\t\tcol\.R = [^\n]*\n\t\tcol\.G = [^\n]*\n\t\tcol\.B = [^\n]*\n)`, "${2}${1}", "E11.zero-factor"},
 		{"parser forgets the position of an empty closed sub-path (reverts fix db9f29f)", "path.go", `\t\t\temptyClosed = !p\.Pos\(\)\.Equals\(p1\)\n`, "", "E11.empty-close-keeps-position"},
 		{"viewBox origin put into the coordinate view", "svg.go", `m := Identity\.Scale\(width/viewbox\[2\], height/viewbox\[3\]\)\.Translate\(-viewbox\[0\], -viewbox\[1\]\)\n\t\tsvg\.ctx\.SetView\(m\)`, "m := Identity.Scale(width/viewbox[2], height/viewbox[3])\n\t\tsvg.ctx.SetView(m)\n\t\tsvg.ctx.SetCoordView(Identity.Translate(-viewbox[0], -viewbox[1]))", "E11.viewbox-in-one-matrix"},
 		{"viewBox split at single spaces (reverts fix 67b6a25)", "svg.go", `(?s)vals := strings\.FieldsFunc\(attrViewBox, func\(r rune\) bool \{\n[^\n]*\n\t\t\}\)`, "vals := strings.Split(attrViewBox, \" \")", "E11.viewbox-separators"},
